@@ -234,11 +234,22 @@ def dtype_case(ctx, name, f, pts, extra):
     ctx.count('dtype:' + name, n=len(pts), nontrivial_key=(name, pts.tobytes()), sample=dict(function=name, n=len(pts)))
 
 
+def _dtype_functions():
+    import kneeliverse.curvature as cu, kneeliverse.dfdt as df, kneeliverse.menger as mg, kneeliverse.lmethod as lm, kneeliverse.kneedle as kn
+    import kneeliverse.zmethod as zm, kneeliverse.rdp as rdp, kneeliverse.convex_hull as ch, kneeliverse.linear_fit as lf
+    return [('curvature.knee', cu.knee, ()), ('dfdt.knee', df.knee, ()), ('menger.knee', mg.knee, ()), ('lmethod.knee', lm.knee, ()),
+            ('kneedle.knee', kn.knee, ()), ('kneedle.knees', kn.knees, ()), ('kneedle.multi_knee', kn.multi_knee, ()), ('curvature.multi_knee', cu.multi_knee, ()),
+            ('zmethod.knees', zm.knees, (0.1, 0.1, 0.25)), ('rdp.rdp', rdp.rdp, (0.05,)), ('rdp.rdp_fixed', rdp.rdp_fixed, (6,)), ('rdp.grdp', rdp.grdp, (0.05,)),
+            ('convex_hull.graham_scan_lower', ch.graham_scan_lower, ()), ('linear_fit.linear_fit_points', lf.linear_fit_points, ()),
+            ('linear_fit.perpendicular_distance', lf.perpendicular_distance, ()), ('linear_fit.linear_hv_residuals_points', lf.linear_hv_residuals_points, ())]
+
+
 def dtype_sweep(ctx, rounds):
     import kneeliverse.curvature as cu, kneeliverse.dfdt as df, kneeliverse.menger as mg, kneeliverse.lmethod as lm, kneeliverse.kneedle as kn
     import kneeliverse.zmethod as zm, kneeliverse.rdp as rdp, kneeliverse.convex_hull as ch, kneeliverse.linear_fit as lf, kneeliverse.postprocessing as pp
     rng = ctx.rng
-    fns = [('curvature.knee', cu.knee, ()), ('dfdt.knee', df.knee, ()), ('menger.knee', mg.knee, ()), ('lmethod.knee', lm.knee, ()),
+    fns = _dtype_functions()
+    _unused = [('curvature.knee', cu.knee, ()), ('dfdt.knee', df.knee, ()), ('menger.knee', mg.knee, ()), ('lmethod.knee', lm.knee, ()),
            ('kneedle.knee', kn.knee, ()), ('kneedle.knees', kn.knees, ()), ('kneedle.multi_knee', kn.multi_knee, ()), ('curvature.multi_knee', cu.multi_knee, ()),
            ('zmethod.knees', zm.knees, (0.1, 0.1, 0.25)), ('rdp.rdp', rdp.rdp, (0.05,)), ('rdp.rdp_fixed', rdp.rdp_fixed, (6,)), ('rdp.grdp', rdp.grdp, (0.05,)),
            ('convex_hull.graham_scan_lower', ch.graham_scan_lower, ()), ('linear_fit.linear_fit_points', lf.linear_fit_points, ()),
@@ -326,4 +337,16 @@ def on_build_failure(ctx, out):
 
 
 def replay(ctx, body):
-    run(ctx)
+    """re-run the one function of the replayed case (purity on the registry's sample input; dtype pair on the recorded points)"""
+    c = body.get('case', {})
+    fn = c.get('function')
+    if not fn:
+        return
+    if 'points' in c:
+        for name, f, extra in _dtype_functions():
+            if name == fn:
+                dtype_case(ctx, name, f, np.array(c['points'], float), extra)
+        return
+    for name, f, args, kwargs in registry(ctx.rng):
+        if name == fn:
+            purity_case(ctx, name, f, args, kwargs)
